@@ -94,7 +94,9 @@ func applyModel(roots []*rj.Node, op editOp) (wantErr bool, log []string, err er
 	switch op.Kind {
 	case "SetNull":
 		if parent == nil {
-			return false, nil, bugf("SetNull on a root container is outside the generated domain")
+			// the top-level container of a root element (a whole record of an NDJSON tape) becomes null
+			roots[op.Path[0]] = &rj.Node{K: rj.Null}
+			return false, nil, nil
 		}
 		setSlot(parent, idx, &rj.Node{K: rj.Null})
 	case "SetBool":
@@ -521,11 +523,12 @@ func marshalMatches(text []byte, roots []*rj.Node, what string) error {
 		return fmt.Errorf("%s: output has %d newline-separated roots, want %d: %q", what, len(parts), len(roots), clip(text))
 	}
 	for i, p := range parts {
-		g, err := rj.ParseStrict(p)
-		if err != nil {
+		// wrapped in brackets so that a root that was replaced by null is a value the reference parser reads as well
+		g, err := rj.ParseStrict(append(append([]byte{'['}, p...), ']'))
+		if err != nil || len(g.A) != 1 {
 			return fmt.Errorf("%s: output is not valid JSON (%v): %q", what, err, clip(p))
 		}
-		if err := eqNumeric(roots[i], g, fmt.Sprintf("%s root %d", what, i)); err != nil {
+		if err := eqNumeric(roots[i], g.A[0], fmt.Sprintf("%s root %d", what, i)); err != nil {
 			return fmt.Errorf("%v\noutput: %q", err, clip(p))
 		}
 	}
@@ -598,7 +601,12 @@ func checkAgainstModel(pj *simdjson.ParsedJson, roots []*rj.Node, nd bool, inv i
 			if err := marshalMatches(out, roots, "Iter.MarshalJSON"); err != nil {
 				return err
 			}
-			// fixed point
+			// fixed point (a document whose root was replaced by null cannot be parsed again: roots must be containers)
+			for _, r := range roots {
+				if r.K != rj.Arr && r.K != rj.Obj {
+					return checkSerializeOnly(pj, roots, inv, mc)
+				}
+			}
 			var re *simdjson.ParsedJson
 			if nd {
 				re, err = simdjson.ParseND(append([]byte(nil), out...), nil)
@@ -622,6 +630,10 @@ func checkAgainstModel(pj *simdjson.ParsedJson, roots []*rj.Node, nd bool, inv i
 			}
 		}
 	}
+	return checkSerializeOnly(pj, roots, inv, mc)
+}
+
+func checkSerializeOnly(pj *simdjson.ParsedJson, roots []*rj.Node, inv invariantSet, mc func(o canonOpts) []byte) error {
 	if inv.serialize {
 		s := simdjson.NewSerializer()
 		blob := s.Serialize(nil, *pj)
@@ -645,6 +657,7 @@ func checkAgainstModel(pj *simdjson.ParsedJson, roots []*rj.Node, nd bool, inv i
 type opMix struct {
 	sets, badSets, delObj, delArr, setNullContainer bool
 	nonFinite                                       bool
+	nullRoot                                        bool // SetNull may address the top-level container of a root
 }
 
 // valuePaths lists the paths of all value positions (excluding the root containers themselves).
@@ -750,12 +763,16 @@ func genOp(t *rapid.T, roots []*rj.Node, mix opMix) (editOp, bool) {
 	if mix.sets && len(scalars) > 0 {
 		kinds = append(kinds, "set", "set", "set")
 	}
-	if mix.setNullContainer && len(containers) > 0 {
+	if mix.setNullContainer && (len(containers) > 0 || mix.nullRoot) {
 		kinds = append(kinds, "nullc")
 	}
 	var objs, arrs [][]int
-	for i := range roots {
-		containers = append(containers, []int{i})
+	nroots := 0
+	for i, r := range roots {
+		if r.K == rj.Arr || r.K == rj.Obj {
+			containers = append(containers, []int{i})
+			nroots++
+		}
 	}
 	for _, p := range containers {
 		_, _, n, _ := modelSlot(roots, p)
@@ -803,7 +820,13 @@ func genOp(t *rapid.T, roots []*rj.Node, mix opMix) (editOp, bool) {
 		genSetValue(t, &op, mix.nonFinite)
 	case "nullc":
 		// SetNull on a nested container; or a documented-illegal Set* on it
-		nested := containers[:len(containers)-len(roots)]
+		nested := containers[:len(containers)-nroots]
+		if mix.nullRoot && nroots > 0 && (len(nested) == 0 || rapid.IntRange(0, 5).Draw(t, "rootnull") == 0) {
+			nested = containers[len(containers)-nroots:]
+		}
+		if len(nested) == 0 {
+			return editOp{}, false
+		}
 		op.Path = nested[rapid.IntRange(0, len(nested)-1).Draw(t, "ctarget")]
 		op.Kind = "SetNull"
 		if mix.badSets && rapid.IntRange(0, 3).Draw(t, "illegalc") == 0 {
